@@ -7,7 +7,8 @@ ID = 'C20'
 RULE = ('cases = generated source G-SEL spec x all its feasible final instances (obtained through the DSG API, all choice '
         'orders) x a generated supplementary graph with 1-3 selection choices (nested: a choice under an option of an '
         'earlier one) each mapped by an option mapping (incl. the None entry for inactive source choices) or an ordered '
-        'existence mapping; negative variants: unmapped choice, duplicate mapping, missing None, non-final source; oracle '
+        'existence mapping, mappings registered in a generated order, nested choices also below a node that options of two '
+        'different choices derive; negative variants: unmapped choice, duplicate mapping, missing None, non-final source; oracle '
         '= mapping model on the reference architecture (expected option per active supplementary choice, resolved node '
         'set = supplementary closure), errors expected for the negative variants, SupResolveError accepted only where the '
         'model says the selected option is ambiguous; one evaluation = one (source architecture, resolve); non-trivial = '
@@ -27,9 +28,13 @@ def _case(draw, tier):
     for i in range(n_sup):
         n_opts = draw(st.integers(2, 3))
         origin = 'r'
-        if i > 0 and draw(st.booleans()):
+        r = draw(st.integers(0, 3)) if i > 0 else 0
+        if r in (1, 2):
             j = draw(st.integers(0, i-1))
             origin = f'u{j}o{draw(st.integers(0, sup_choices[j]["n_opts"]-1))}'
+        elif r == 3:
+            # below a node that options of (up to) two different earlier choices derive
+            origin = 'sh'
         kind = draw(st.sampled_from(['option', 'option', 'exist']))
         if kind == 'option':
             multi = [c for c in src['choices'] if len(c['opts']) >= 2]
@@ -44,8 +49,26 @@ def _case(draw, tier):
                  'none': draw(st.integers(0, n_opts-1))}
         sup_choices.append({'id': f'u{i}', 'origin': origin, 'n_opts': n_opts, 'map': m,
                             'child': draw(st.booleans())})
+    sup_edges = []
+    if any(ch['origin'] == 'sh' for ch in sup_choices):
+        first_sh = min(i for i, ch in enumerate(sup_choices) if ch['origin'] == 'sh')
+        for _ in range(draw(st.integers(1, 2))):
+            j = draw(st.integers(0, first_sh-1))
+            if sup_choices[j]['origin'] == 'sh':
+                continue
+            e = [f'u{j}o{draw(st.integers(0, sup_choices[j]["n_opts"]-1))}', 'sh']
+            if e not in sup_edges:
+                sup_edges.append(e)
+        later = [i for i, ch in enumerate(sup_choices) if i > first_sh and ch['origin'] == 'r']
+        if later and draw(st.booleans()):
+            j = draw(st.sampled_from(later))
+            sup_edges.append([f'u{j}o{draw(st.integers(0, sup_choices[j]["n_opts"]-1))}', 'sh'])
+        if not sup_edges:
+            sup_edges.append(['u0o0', 'sh'])
     neg = draw(st.sampled_from([None, None, None, None, 'unmapped', 'dup', 'missing_none', 'nonfinal']))
-    return {'src': src, 'sup': sup_choices, 'neg': neg}
+    # the order in which the mappings are registered (add_mapping) is free
+    map_order = draw(st.permutations(list(range(n_sup))))
+    return {'src': src, 'sup': sup_choices, 'neg': neg, 'sup_edges': sup_edges, 'map_order': list(map_order)}
 
 
 def strategy(tier):
@@ -68,9 +91,15 @@ def build_sup(case, b_src):
             if ch['child']:
                 nodes[nm+'c'] = SupNode(nm+'c')
                 sup.add_edge(nodes[nm], nodes[nm+'c'])
+        if ch['origin'] == 'sh' and 'sh' not in nodes:
+            nodes['sh'] = SupNode('sh')
         choice_nodes[ch['id']] = sup.add_selection_choice(ch['id'], nodes[ch['origin']], opts)
+    for u, v in case.get('sup_edges', []):
+        sup.add_edge(nodes[u], nodes[v])
     neg = case.get('neg')
-    for i, ch in enumerate(case['sup']):
+    order = case.get('map_order') or list(range(len(case['sup'])))
+    for i in order:
+        ch = case['sup'][i]
         if neg == 'unmapped' and i == len(case['sup'])-1:
             continue
         m = ch['map']
@@ -91,7 +120,7 @@ def build_sup(case, b_src):
             table[None] = nodes[f'{ch["id"]}o{m["none"]}']
             mapping = SupExistenceMapping(table)
         sup.add_mapping(choice_nodes[ch['id']], b_src.dsg, mapping)
-        if neg == 'dup' and i == 0:
+        if neg == 'dup' and i == order[0]:
             sup.add_mapping(choice_nodes[ch['id']], b_src.dsg, mapping)
     sup = sup.set_start_nodes({nodes['r']})
     return sup, nodes, choice_nodes
@@ -107,6 +136,15 @@ def expected(case, src_spec, names, sel_edges):
         base_out.setdefault(u, set()).add(v)
     for u, v in sel_edges:
         base_out.setdefault(u, set()).add(v)
+    # the selected option of a mapped source choice cannot be told from the architecture (two of its options are wired
+    # from its originating node, e.g. by another choice on the same node): any outcome is accepted, also for a
+    # supplementary choice that turns out inactive (mappings may be evaluated before their choice is known to be inactive)
+    for ch in case['sup']:
+        m = ch['map']
+        if m['kind'] == 'option':
+            sc = src_choices[m['src_choice']]
+            if sc['origin'] in names and len(base_out.get(sc['origin'], set()) & set(sc['opts'])) != 1:
+                return None, True
     changed = True
     done = set()
     while changed:
@@ -135,6 +173,9 @@ def expected(case, src_spec, names, sel_edges):
             k.add(opt)
             if ch['child']:
                 k.add(opt+'c')
+            for u, v in case.get('sup_edges', []):
+                if u == opt:
+                    k.add(v)
             done.add(ch['id'])
             changed = True
     return k, ambiguous
@@ -167,6 +208,7 @@ def check_case(case):
             if any(org not in a['nodes'] for a in archs):
                 inactive_somewhere = True
     nested = any(ch['origin'] != 'r' for ch in case['sup'])
+    shared = any(ch['origin'] == 'sh' for ch in case['sup'])
 
     try:
         sup, nodes, choice_nodes = build_sup(case, b)
@@ -264,6 +306,10 @@ def check_case(case):
     res.evaluations = max(1, n_eval)
     res.nontrivial = (nested or inactive_somewhere) and len(leaves) >= 1
     res.classes.append('nested_sup_choice' if nested else 'flat_sup')
+    if shared:
+        res.classes.append('nested_below_shared_node')
+    if (case.get('map_order') or []) != sorted(case.get('map_order') or []):
+        res.classes.append('mappings_registered_out_of_order')
     res.classes.append('source_choice_inactive_somewhere' if inactive_somewhere else 'source_choices_always_active')
     res.sample = {'source_choices': src_spec['choices'], 'sup': case['sup'], 'neg': neg,
                   'n_source_architectures': len(leaves)}
